@@ -175,6 +175,38 @@ def oracle_c03(tables, seed, tier, deep):
             except Exception as e:
                 viol.append({"site": "stream:failure:invalid-line", "detail": "status %s, an emitted line is not a JSON object: %r" % (p[0], ln[:120]), "cfg": Cfg().s(), "faults": f[2], "input_hex": f[3][:4000]})
                 break
+    # through the real CLI with a SLOW consumer on stdout: every physical output line must be a JSON object of the shape of its input line
+    import tempfile, shutil
+    work = tempfile.mkdtemp(prefix="verif_c03_")
+    try:
+        big_cases = [cs for cs in cases if "\n" not in cs.text and not has_dups(cs.tree)]
+        reps = max(1, (2500 if not (tier == "thorough" or deep) else 6000) // max(1, len(big_cases)))
+        seq = []
+        for r_ in range(reps):
+            for j, cs in enumerate(big_cases):
+                seq.append(cs)
+        fbig = os.path.join(work, "big.log")
+        with open(fbig, "wb") as fh:
+            for cs in seq:
+                fh.write(cs.text.encode("utf-8") + b"\n")
+        rcs, sos = run_cli_slow(["redact", "--redactNumbers", fbig], cwd=work)
+        dist["cli-slow-consumer:exit%d" % rcs] += 1
+        outl = sos.split(b"\n")
+        if rcs != 0 or (outl and outl[-1] != b"") or len(outl) - 1 != len(seq):
+            viol.append({"site": "cli:slow-consumer:lines", "detail": "exit %d; %d input entries gave %d physical output lines (stdout read slowly)" % (rcs, len(seq), len(outl) - 1), "cfg": Cfg(n=True).s(), "cli_flags": ["--redactNumbers"],
+                         "input": "%d entries, stdout read slowly; first entry: %s" % (len(seq), seq[0].text[:300] if seq else "")})
+        else:
+            for cs, ln in zip(seq, outl):
+                try:
+                    o = parse_json(ln.decode("utf-8"))
+                    d = shape_diff(cs.tree, o)
+                except Exception as e:
+                    d = ((), "output line is not valid JSON: %s" % e)
+                if d:
+                    viol.append({"site": "cli:slow-consumer:shape:" + site_of(d[0]), "detail": "stdout read slowly: %s; line %r" % (d[1], ln[:160]), "cfg": Cfg(n=True).s(), "cli_flags": ["--redactNumbers"], "input": cs.text, "output": ln.decode("utf-8", "replace")})
+                    break
+    finally:
+        shutil.rmtree(work, ignore_errors=True)
     return result(viol, len(pairs) + len(sops), len(distinct), "grammar lines + other-component lines + arbitrary operator trees x flag sets without --redactFieldNames; distinct = distinct input lines; non-trivial = parsed object without duplicate keys; plus streams that fail part-way (over-long line after 3..60 lines, read error): every emitted physical line must still be a whole JSON object",
                   dist, [pairs[0][0].text[:400]] if pairs else [])
 
@@ -1386,6 +1418,28 @@ def oracle_c06(tables, seed, tier, deep):
                         if rc != 0 or o != exp:
                             viol.append({"site": "channel:%s:%s" % (ch_in, ch_out), "detail": "exit %d, output %s the in-process line-by-line result (%d vs %d bytes) %s" % (rc, "equals" if o == exp else "differs from", len(o), len(exp), se[-200:].decode("utf-8", "replace")),
                                          "cfg": cfg.s(), "cli_flags": cfg.cli(), "input_hex": hx(data)})
+        # a SLOW consumer on stdout (a pager, a busy pipe): thousands of distinct entries, the reader stalls; the bytes must be the same
+        big_lines = []
+        for j in range(6000 if big else 2500):
+            big_lines.append(to_json(Obj([("t", Obj([("$date", "2024-05-08T12:00:%02d.%03dZ" % (j % 60, j % 1000))])), ("c", "COMMAND"), ("id", Num(str(j))), ("msg", "Slow query"),
+                                          ("attr", Obj([("ns", "d.c%d" % (j % 7)), ("command", Obj([("find", "c"), ("filter", Obj([("k%d" % j, "v" * (j % 173)), ("n", Num(str(j)))]))])), ("durationMillis", Num(str(j * 3)))]))])).encode())
+            if j % 97 == 0:
+                big_lines.append(b"not json %d" % j)
+        bdata = b"\n".join(big_lines) + b"\n"
+        fbig = os.path.join(work, "big.log")
+        open(fbig, "wb").write(bdata)
+        cfgb = Cfg(n=True)
+        rcf, sof, sef = run_cli(["redact"] + cfgb.cli() + [fbig], cwd=work)
+        rcs, sos = run_cli_slow(["redact"] + cfgb.cli() + [fbig], cwd=work)
+        n_in += 2
+        dist["cli-file-stdout-slow"] += 1
+        expb = b"".join(e_ for e_ in expected_stream(big_lines, cfgb) if e_)
+        if rcf != 0 or sof != expb:
+            viol.append({"site": "channel:file:stdout:many-lines", "detail": "exit %d, %d entries: output differs from the line-by-line result (%d vs %d bytes)" % (rcf, len(big_lines), len(sof), len(expb)), "cfg": cfgb.s(), "cli_flags": cfgb.cli(), "input_hex": hx(bdata[:4000])})
+        if rcs != 0 or sos != expb:
+            k = next((i for i in range(min(len(sos), len(expb))) if sos[i] != expb[i]), min(len(sos), len(expb)))
+            viol.append({"site": "channel:file:stdout-slow-reader", "detail": "exit %d, %d entries, stdout read slowly: output differs from the line-by-line result at byte %d (%d vs %d bytes): %r" % (rcs, len(big_lines), k, len(sos), len(expb), sos[max(0, k - 80):k + 80]),
+                         "cfg": cfgb.s(), "cli_flags": cfgb.cli(), "input": "%d generated entries (tools/oracles.py oracle_c06, slow consumer); first: %s" % (len(big_lines), big_lines[0].decode())})
     finally:
         shutil.rmtree(work, ignore_errors=True)
     return result(viol, n_in, n_in, "multi-line inputs mixing command lines, other components, blank / whitespace-only / non-JSON / legacy text lines; in-process stream processor with chunked reads, LF and CRLF, with and without final newline, A / B / A++B; the real CLI on file / .gz / stdin x stdout / --outputFile, each twice; every output compared byte for byte with the per-line results",
@@ -3125,7 +3179,10 @@ def oracle_c20(tables, seed, tier, deep):
     keys += ["zQ7~", "Z~"]          # very short keys (a "masked" key that keeps the last characters shows them whole)
     scen = [("digest", {}, None, False), ("none", {}, None, False), ("basic", {}, None, False), ("reject", {}, None, False), ("digest", {}, None, True),
             ("digest", {1: ("http", 500)}, None, True), ("digest", {0: ("http", 403)}, None, True), ("digest", {1: ("cut", 30)}, None, False), ("digest", {}, ("http", 500), True),
-            ("digest", {0: ("reset",)}, None, False), ("basic", {}, None, True), ("digest-cluster-only", {}, None, False)]
+            ("digest", {0: ("reset",)}, None, False), ("basic", {}, None, True), ("digest-cluster-only", {}, None, False),
+            # "not found" / "try later" answers for a host's log or for the cluster (a fallback or retry path may build its request differently)
+            ("digest", {0: ("http", 404)}, None, True), ("digest", {1: ("http", 404)}, None, False), ("none", {0: ("http", 404)}, None, True),
+            ("digest", {0: ("http", 401)}, None, True), ("digest", {}, ("http", 404), True), ("digest", {1: ("http", 429)}, None, True), ("digest", {0: ("http", 410)}, None, False)]
     try:
         for ki, priv in enumerate(keys):
             for si, (auth, faults, cf, echo) in enumerate(scen):
